@@ -6,6 +6,7 @@ import (
 	"fmt"
 	"go/constant"
 	"go/types"
+	"regexp"
 	"strings"
 )
 
@@ -15,6 +16,8 @@ type specEnv struct {
 	vars map[string]TV
 	st   *state
 	old  *state
+	prev *state
+	prevVars map[string]TV
 	pkg  string
 	src  string
 }
@@ -85,6 +88,19 @@ func (env *specEnv) eval(e SExpr) TV {
 		sub := *env
 		sub.st = env.old
 		return sub.eval(x.X)
+	case *SPrev:
+		if env.prev == nil {
+			env.fail("prev() outside a loop step clause")
+		}
+		sub := *env
+		sub.st = env.prev
+		if env.prevVars != nil {
+			sub.vars = copyVars(env.vars)
+			for k, v := range env.prevVars {
+				sub.vars[k] = v
+			}
+		}
+		return sub.eval(x.X)
 	case *SUnary:
 		v := env.eval(x.X)
 		switch x.Op {
@@ -153,6 +169,19 @@ func (env *specEnv) eval(e SExpr) TV {
 	case *SCall:
 		return env.evalCall(x)
 	case *SQuant:
+		if x.Bounded {
+			var parts []string
+			for k := x.Lo; k < x.Hi; k++ {
+				sub := *env
+				sub.vars = copyVars(env.vars)
+				sub.vars[x.Vars[0]] = TV{T: smtInt(k), Sort: "Int"}
+				parts = append(parts, sub.eval(x.Body).T)
+			}
+			if x.Forall {
+				return TV{T: and(parts...), Sort: "Bool"}
+			}
+			return TV{T: or(parts...), Sort: "Bool"}
+		}
 		sub := *env
 		sub.vars = copyVars(env.vars)
 		var decls []string
@@ -502,6 +531,10 @@ func (env *specEnv) evalCall(x *SCall) TV {
 		a := env.eval(x.Args[0])
 		i := env.eval(x.Args[1])
 		return TV{T: fmt.Sprintf("(select (select %s %s) %s)", env.heap("BD"), refOf(a), i.T), Sort: "Int"}
+	case "bufstr":
+		argn(1)
+		a := env.eval(x.Args[0])
+		return TV{T: fmt.Sprintf("(mkstr (select %s %s) 0 (select %s %s))", env.heap("BD"), refOf(a), env.heap("BL"), refOf(a)), Sort: "Str", Typ: types.Typ[types.String]}
 	case "bufdata":
 		argn(1)
 		a := env.eval(x.Args[0])
@@ -612,15 +645,7 @@ func (env *specEnv) evalCall(x *SCall) TV {
 			args = append(args, v.T)
 		}
 		name := "sf_" + sf.Name
-		if sf.SMTBody != "" {
-			u.global(fmt.Sprintf("(define-fun %s (%s) %s %s)", name, strings.Join(ps, " "), specSort(sf.Result), sf.SMTBody))
-		} else {
-			var pss []string
-			for _, p := range sf.Params {
-				pss = append(pss, specSort(p))
-			}
-			u.global(fmt.Sprintf("(declare-fun %s (%s) %s)", name, strings.Join(pss, " "), specSort(sf.Result)))
-		}
+		e.declareSpec(sf, map[string]bool{})
 		return TV{T: app(name, args...), Sort: specSort(sf.Result)}
 	}
 	env.fail("unknown function %s", x.Fn)
@@ -640,4 +665,31 @@ func hasPrefixTerm(s string, lit string) string {
 		parts = append(parts, fmt.Sprintf("(= (sat %s %d) %d)", s, i, lit[i]))
 	}
 	return and(parts...)
+}
+
+var sfRef = regexp.MustCompile(`sf_([A-Za-z0-9_]+)`)
+
+// declareSpec emits the declaration of a spec function after the ones its body refers to.
+func (e *Engine) declareSpec(sf *SpecFunc, busy map[string]bool) {
+	if busy[sf.Name] {
+		return
+	}
+	busy[sf.Name] = true
+	u := e.u
+	name := "sf_" + sf.Name
+	var ps, pss []string
+	for i, p := range sf.Params {
+		ps = append(ps, fmt.Sprintf("(p%d %s)", i, specSort(p)))
+		pss = append(pss, specSort(p))
+	}
+	if sf.SMTBody != "" {
+		for _, m := range sfRef.FindAllStringSubmatch(sf.SMTBody, -1) {
+			if dep, ok := e.contracts.Specs[m[1]]; ok && dep != sf {
+				e.declareSpec(dep, busy)
+			}
+		}
+		u.global(fmt.Sprintf("(define-fun %s (%s) %s %s)", name, strings.Join(ps, " "), specSort(sf.Result), sf.SMTBody))
+	} else {
+		u.global(fmt.Sprintf("(declare-fun %s (%s) %s)", name, strings.Join(pss, " "), specSort(sf.Result)))
+	}
 }
